@@ -673,6 +673,7 @@ def correspondence(ctx):
     # ---- tzutc / tzoffset methods re-translated from source (Generated/TzFixedKernels.lean) ----
     import tzhelplib
     tzhelplib.validate_fixed(ctx)
+    tzhelplib.validate_local(ctx)
 
 
 # ======================================================================================
